@@ -1115,7 +1115,12 @@ def run_alias(ctx):
             hist, snaps, ress = hist[:cut], snaps[:cut], ress[:cut]
         hists.append(hist)
         runs.append((snaps, ress, fails))
-    # the model, all histories in one batch
+        if len(hists) >= 100 or it == nh - 1:
+            compare_with_model(ctx, live, hists, runs, reported)       # in chunks: snapshots and replies of a chunk are dropped afterwards
+            hists, runs = [], []
+
+
+def compare_with_model(ctx, live, hists, runs, reported):
     replies = model_trace(ctx, live, hists)
     for hist, (snaps, ress, fails), rep in zip(hists, runs, replies):
         mm = first_mismatch(ress, snaps, rep)
